@@ -109,6 +109,12 @@ type Engine struct {
 	clock        int64
 	timers       []*timerObj
 	inClassify   bool
+	choices      []int
+	violCounter  *int64
+	pinMode      bool
+	pinChoices   []int
+	pinModel     map[string]uint64
+	pinMemo      map[*Term]uint64
 }
 
 func (e *Engine) end(kind, msg string) {
@@ -231,6 +237,22 @@ func (e *Engine) decide(c *Term) bool {
 	}
 	k := len(e.decisions)
 	var take bool
+	if e.pinMode {
+		v, ok := evalTerm(c, e.pinModel, e.pinMemo)
+		if ok {
+			take = v == 1
+		} else {
+			r, _ := e.check(c, false)
+			take = r != "unsat"
+		}
+		if take {
+			e.decisions = append(e.decisions, 1)
+		} else {
+			e.decisions = append(e.decisions, 0)
+		}
+		e.addFact(c, take)
+		return take
+	}
 	if k < len(e.prefix) {
 		take = e.prefix[k] == 1
 		if e.model != nil {
@@ -293,6 +315,18 @@ func (e *Engine) decide(c *Term) bool {
 func (e *Engine) choose(n int) int {
 	k := len(e.decisions)
 	c := 0
+	if e.pinMode {
+		if len(e.choices) < len(e.pinChoices) {
+			c = e.pinChoices[len(e.choices)]
+		}
+		if c >= n {
+			c = 0
+		}
+		e.choices = append(e.choices, c)
+		e.decisions = append(e.decisions, c)
+		return c
+	}
+	defer func() { e.choices = append(e.choices, c) }()
 	if k < len(e.prefix) {
 		c = e.prefix[k]
 	} else {
